@@ -83,6 +83,7 @@ class Report:
         self.evaluations = 0
         self.machinery: list = []
         self.findings = load_findings(pid)
+        Report.current = self          # main_guard finishes this report if the harness crashes after violations were found
 
     # ---- counting -------------------------------------------------------------------------------------------
     def count(self, n: int = 1, nontrivial_key=None):
@@ -191,4 +192,11 @@ def main_guard(pid: str, fn):
     except BaseException:  # noqa: BLE001
         traceback.print_exc()
         print(f"MACHINERY-FAILURE property={pid} harness crashed", file=sys.stderr)
+        rep = getattr(Report, "current", None)
+        if rep is not None and rep.violations:      # violations already reported stand: they take precedence in the exit status
+            try:
+                rep.machinery.append("the harness crashed after these violations were reported")
+                return rep.finish()
+            except BaseException:  # noqa: BLE001
+                return 1
         return 2
